@@ -286,7 +286,7 @@ var entriesByContainer = map[string][]string{
 var bigVals = []uint64{0xffffffff, 0x7fffffff, 0x80000000, 0x10000000, 0x01000000, 0x00100000, 0xffff, 0x8000, 0, 1, 2, 7, 8}
 
 // sizeFlip sets one size/count/length field of the layout map to a large or stalling value.
-func sizeFlip(l *core.Lane, data []byte, fmap []gengen.FieldSpan, desc func(string, ...interface{})) []byte {
+func sizeFlip(l, x *core.Lane, data []byte, fmap []gengen.FieldSpan, desc func(string, ...interface{})) []byte {
 	out := append([]byte(nil), data...)
 	var cands []gengen.FieldSpan
 	for _, f := range fmap {
@@ -298,7 +298,8 @@ func sizeFlip(l *core.Lane, data []byte, fmap []gengen.FieldSpan, desc func(stri
 	if len(cands) == 0 {
 		return out
 	}
-	f := cands[l.Intn(len(cands))]
+	fi := l.Intn(len(cands))
+	f := cands[fi]
 	if f.Off < 0 || f.Off+f.Len > len(out) || f.Len > 8 {
 		return out
 	}
@@ -307,15 +308,50 @@ func sizeFlip(l *core.Lane, data []byte, fmap []gengen.FieldSpan, desc func(stri
 		v = uint64(len(out)) + uint64(l.Intn(64))
 	}
 	le := l.Bool()
-	for j := 0; j < f.Len; j++ {
-		if le {
-			out[f.Off+j] = byte(v >> (8 * uint(j)))
-		} else {
-			out[f.Off+j] = byte(v >> (8 * uint(f.Len-1-j)))
+	put := func(f gengen.FieldSpan, v uint64) {
+		if f.Off < 0 || f.Off+f.Len > len(out) || f.Len > 8 || f.Len == 0 {
+			return
+		}
+		for j := 0; j < f.Len; j++ {
+			if le {
+				out[f.Off+j] = byte(v >> (8 * uint(j)))
+			} else {
+				out[f.Off+j] = byte(v >> (8 * uint(f.Len-1-j)))
+			}
+		}
+		if desc != nil {
+			desc("sizeflip field=%s off=%d len=%d value=%#x le=%v", f.Name, f.Off, f.Len, v, le)
 		}
 	}
-	if desc != nil {
-		desc("sizeflip field=%s off=%d len=%d value=%#x le=%v", f.Name, f.Off, f.Len, v, le)
+	put(f, v)
+	// cooperating fields (side lane x; 0 = the single flip above): the size fields next to the
+	// chosen one in the layout map (a box size and the size of what it holds), or every field of
+	// the same kind (all entry counts of a directory) driven to the same value
+	switch x.Intn(4) {
+	case 1:
+		k := 1 + x.Intn(3)
+		for i := 1; i <= k && fi+i < len(cands); i++ {
+			put(cands[fi+i], v)
+		}
+	case 2:
+		k := 1 + x.Intn(3)
+		for i := 1; i <= k && fi+i < len(cands); i++ {
+			put(cands[fi+i], bigVals[x.Intn(len(bigVals))])
+		}
+	case 3:
+		suffix := f.Name
+		if i := strings.LastIndex(suffix, "."); i >= 0 {
+			suffix = suffix[i:]
+		}
+		vals := []uint64{v, 0x00100000, 0x00200000, 0x00080000, 0x00400000, 0x0000ffff}
+		v2 := vals[x.Intn(len(vals))]
+		n := 0
+		for _, g := range cands {
+			if g.Off != f.Off && strings.HasSuffix(g.Name, suffix) && n < 60 {
+				put(g, v2)
+				n++
+			}
+		}
 	}
 	return out
 }
@@ -449,7 +485,7 @@ func decodeMixed(c *Ctx, prop string, class int) {
 			names = []string{"Decode"}
 		}
 		e = harness.EntryByName(names[gen.Intn(len(names))])
-		data = sizeFlip(gen, data, fmap, c.Descf)
+		data = sizeFlip(gen, c.L("gen:x"), data, fmap, c.Descf)
 		name += "+sizeflip"
 		hi = len(data)
 	} else if class == 2 {
